@@ -375,7 +375,8 @@ impl Enumerate for MapIterator {
   }
 
   fn size_hint(&self) -> Option<usize> {
-    Some(self.map.len())
+    // what the iterator yields, not what the map has become since
+    Some(self.entries.len())
   }
 
   fn as_debug(&self) -> &dyn DebugHeap {
